@@ -74,7 +74,15 @@ class Run:
         """Rebuild the harness against /repo's current working tree with the verif tag."""
         out = os.path.join(self.dir, "vh")
         # keep the harness module's dependency list in step with /repo
-        cmd = ["go", "build", "-tags", "verif"] + (["-race"] if race else []) + ["-o", out, "."]
+        cmd = ["go", "build", "-tags", "verif"] + (["-race"] if race else [])
+        if os.path.abspath(REPO) != "/repo":
+            # seeded-change testing: build against a scratch worktree instead of /repo (VERIF_REPO)
+            mod = open(os.path.join(HARNESS, "go.mod")).read().replace("=> /repo", "=> " + os.path.abspath(REPO))
+            with open(os.path.join(self.dir, "go.mod"), "w") as f:
+                f.write(mod)
+            shutil.copy(os.path.join(HARNESS, "go.sum"), os.path.join(self.dir, "go.sum"))
+            cmd += ["-modfile", os.path.join(self.dir, "go.mod")]
+        cmd += ["-o", out, "."]
         p = subprocess.run(cmd, cwd=HARNESS, env=GOENV, capture_output=True, text=True)
         if p.returncode != 0:
             raise Infra("harness does not build against /repo:\n" + p.stdout + p.stderr)
@@ -426,7 +434,7 @@ def finish(run, level="model_checking", rule="", assumptions=None, extra_cov=Non
         "assumptions": (assumptions or []) + run.assumptions,
         "wall_s": round(time.time() - run.t0, 1), "violations": len(viol),
     }
-    if write_evidence:
+    if write_evidence and not os.environ.get("VERIF_NO_EVIDENCE"):
         os.makedirs(os.path.join(VERIF, "evidence"), exist_ok=True)
         with open(os.path.join(VERIF, "evidence", pid + ".json"), "w") as f:
             json.dump(ev, f, indent=1)
